@@ -4971,6 +4971,8 @@ def c14_from_file_wiring():
                  # labels are what stands between the quotes, verbatim: leading / trailing blanks and an all-blank label included
                  ('new.labels-with-outer-blanks', ['3 4 unfolded " north" "south  "\n', 'DATA LINE\n', 'MASK LINE\n', ''], dict(shape=(3, 4), folded=False, ids=[' north', 'south  '], mask=True, comments=[])),
                  ('new.blank-label', ['3 4 folded " " "x"\n', 'DATA LINE\n', 'MASK LINE\n', ''], dict(shape=(3, 4), folded=True, ids=[' ', 'x'], mask=True, comments=[])),
+                 # a comment is the line without its ONE leading '#', stripped of outer blanks: further '#' characters belong to the text
+                 ('new.hash-in-comment', ['## run 7 ##\n', '#CHROM POS\n', '3 4 unfolded\n', 'DATA LINE\n', 'MASK LINE\n', ''], dict(shape=(3, 4), folded=False, ids=None, mask=True, comments=['# run 7 ##', 'CHROM POS'])),
                  ('new.unfolded.nolabels', ['3 4 unfolded\n', 'DATA LINE\n', 'MASK LINE\n', ''], dict(shape=(3, 4), folded=False, ids=None, mask=True, comments=[])),
                  ('old', ['# c\n', '3 4\n', 'DATA LINE\n', ''], dict(shape=(3, 4), folded=False, ids=None, mask=False, comments=['c']))]
         for gz in (False, True):
